@@ -1,3 +1,81 @@
 (* C15 -- clustering and vertexing conserve inputs and honour size and distance rules.
-   This file only pins statements; proofs live in Recon/Cluster_proofs.v, Recon/Vertex_proofs.v. *)
-From AG Require Import Base.Prelude Base.Res Recon.Vec Recon.Cluster.
+   This file only pins statements; proofs live in Recon/Cluster_proofs.v, Recon/Vertex_proofs.v.
+
+   Clustering: `bins p` is the value of get_bins(p) and `near p q` is distance(p, q) <= max_distance; the
+   theorems hold for ANY such functions with pairwise distinct bins per point (get_bins pushes every
+   (theta_bin, rho_bin) at most once; the harness checks it on every case), any input list with any
+   number of duplicates, any minimum size >= 1 and any fuel > length of the input.  The public wrapper
+   (cluster_spacepoints_pub) uses 13 and fuel = length + 1. *)
+From Coq Require Import Permutation.
+From AG Require Import Base.Prelude Base.Res Recon.Vec Recon.Cluster Recon.Cluster_proofs.
+Local Open Scope nat_scope.
+
+(* every unwrap of remove_unchecked / of the remainder loop succeeds and every loop ends within the
+   stated fuel: the function returns normally *)
+Theorem C15_cluster_total :
+  forall (bins : point -> list bin) (near : point -> point -> bool),
+  (forall p, NoDup (bins p)) ->
+  forall sp fuel min_points, 1 <= min_points -> length sp < fuel ->
+  exists clusters rem, cluster_spacepoints bins near fuel min_points sp = Ok (clusters, rem).
+Proof. exact cluster_total_lemma. Qed.
+Print Assumptions C15_cluster_total.
+
+(* multiset conservation, duplicates included: clusters and remainder together are the input *)
+Theorem C15_cluster_partition :
+  forall (bins : point -> list bin) (near : point -> point -> bool),
+  (forall p, NoDup (bins p)) ->
+  forall sp fuel min_points clusters rem, 1 <= min_points -> length sp < fuel ->
+  cluster_spacepoints bins near fuel min_points sp = Ok (clusters, rem) ->
+  Permutation (concat clusters ++ rem) sp.
+Proof. exact cluster_partition_lemma. Qed.
+Print Assumptions C15_cluster_partition.
+
+Theorem C15_cluster_min_size :
+  forall (bins : point -> list bin) (near : point -> point -> bool),
+  (forall p, NoDup (bins p)) ->
+  forall sp fuel min_points clusters rem, 1 <= min_points -> length sp < fuel ->
+  cluster_spacepoints bins near fuel min_points sp = Ok (clusters, rem) ->
+  forall c, In c clusters -> min_points <= length c.
+Proof. exact cluster_min_size_lemma. Qed.
+Print Assumptions C15_cluster_min_size.
+
+(* single linkage: any two points of a cluster are joined by a chain of cluster points in which
+   consecutive points are within max_distance (in one direction or the other; no symmetry of `near`
+   is assumed) *)
+Theorem C15_cluster_connected :
+  forall (bins : point -> list bin) (near : point -> point -> bool),
+  (forall p, NoDup (bins p)) ->
+  forall sp fuel min_points clusters rem, 1 <= min_points -> length sp < fuel ->
+  cluster_spacepoints bins near fuel min_points sp = Ok (clusters, rem) ->
+  forall c, In c clusters -> connected near c.
+Proof. exact cluster_connected_lemma. Qed.
+Print Assumptions C15_cluster_connected.
+
+(* the public wrapper: 13 points, fuel length + 1 *)
+Theorem C15_cluster_pub :
+  forall (bins : point -> list bin) (near : point -> point -> bool),
+  (forall p, NoDup (bins p)) ->
+  forall sp, exists clusters rem,
+    cluster_spacepoints_pub bins near sp = Ok (clusters, rem) /\
+    Permutation (concat clusters ++ rem) sp /\
+    forall c, In c clusters -> 13 <= length c /\ connected near c.
+Proof. exact cluster_pub_lemma. Qed.
+Print Assumptions C15_cluster_pub.
+
+(* non-vacuity: concrete tables with distinct bins; shared bins, duplicates, two clusters and a remainder *)
+Definition ex_bins (p : point) : list bin :=
+  match p with 0%N => [1; 2] | 1%N => [2; 3] | 2%N => [2; 5] | 7%N => [9; 2] | 8%N => [9] | _ => [7] end%positive.
+Definition ex_near (p q : point) : bool := (N.max p q - N.min p q <=? 1)%N.
+Example C15_nonvacuous :
+  cluster_spacepoints ex_bins ex_near 12 2 [0; 1; 2; 5; 1; 0; 7; 8; 8; 20; 7]%N
+  = Ok ([[0; 0; 1; 1; 2]; [7; 7; 8; 8]]%N, [20; 5]%N)
+  /\ (forall p, In p [0; 1; 2; 5; 7; 8; 20]%N -> NoDup (ex_bins p)).
+Proof.
+  split; [vm_compute; reflexivity|].
+  intros p Hp. cbn in Hp.
+  repeat (destruct Hp as [<-|Hp]; [cbn; repeat constructor; cbn; intuition discriminate|]). destruct Hp.
+Qed.
+Example C15_nonvacuous_pub :
+  cluster_spacepoints_pub (fun _ => [1; 2]%positive) (fun _ _ => true) (repeat 3%N 14 ++ [4%N])
+  = Ok ([4%N :: repeat 3%N 14], []).
+Proof. vm_compute. reflexivity. Qed.
